@@ -23,8 +23,13 @@ PROGRAMS = {
     "exit-next-vs-jobs": ([("exit", 1), ("next",)], [("jobs",), ("jobs",)]),
     "exit-next-vs-disown2": ([("exit", 1), ("next",), ("add", "bg")], [("disown", ["2"])]),
     "add-add-vs-bg-minus": ([("add", "stopped"), ("next",)], [("bg", ["-"]), ("jobs",)]),
+    # the main thread itself runs a job-control command (first ctrl-d with unfinished jobs,
+    # $THREAD_SUBPROCS=False) while an alias thread runs one: whatever use_main_jobs saves and restores
+    # is per call, and the main thread goes on using the shared table afterwards
+    "jobs-add-vs-jobs": ([("jobs",), ("add", "bg"), ("next",)], [("jobs",)]),
+    "disown-add-vs-bg": ([("disown", ["2"]), ("add", "bg")], [("bg", [])]),
 }
-QUICK = ["add-vs-jobs", "add-vs-disown", "exit-next-vs-jobs", "next-vs-bg"]
+QUICK = ["add-vs-jobs", "add-vs-disown", "exit-next-vs-jobs", "next-vs-bg", "jobs-add-vs-jobs"]
 
 _PROG = None
 _XSH = None
